@@ -423,7 +423,7 @@ SignLeaves(s) ==
   \o PosLeaves(K, Y, s.pos) \o Lf(K, Y, "virtual", I2S(s.virt)) \o Lf(K, Y, "firstOccurrence", IdStr(s.first))
 LightLeaves(t) ==
   LET K == "trafficLight"  Y == I2S(t.id) IN
-  Lf(K, Y, "cycle.n", I2S(Len(t.cyc)))
+  Lf(K, Y, "cycle.isNone", I2S(t.g.cycNone)) \o Lf(K, Y, "cycle.n", I2S(Len(t.cyc)))
   \o Cat([i \in DOMAIN t.cyc |-> Lf(K, Y \o "/c" \o I2S(i), "cycle.color", t.cyc[i].c)
                                  \o Lf(K, Y \o "/c" \o I2S(i), "cycle.duration", I2S(t.cyc[i].d))])
   \o Lf(K, Y, "timeOffset", I2S(t.off)) \o PosLeaves(K, Y, t.pos)
@@ -468,7 +468,8 @@ ShapeSuffixes == {".kind", ".len", ".wid", ".ori", ".ctr", ".rad", ".vtx.n", ".v
 SignalSuffixes == {".present", ".isNone", ".n", ".time.kind", ".time"} \cup {"." \o SignalT[i][2] : i \in DOMAIN SignalT}
 (* None-vs-empty of optional collections is an artefact of the Python API, no format has a field for it:          *)
 (* reference sets None == empty set, signal_series None == [], goal-lanelet dict None == {} (DESIGN App. C)       *)
-NoneFlags == {<<"obstacle", "signalSeries.isNone">>, <<"obstacle", "staticSeries.isNone">>,
+(* a traffic light without cycle == a light with an empty cycle and offset 0 (protobuf: repeated cycle_elements)      *)
+NoneFlags == {<<"trafficLight", "cycle.isNone">>, <<"obstacle", "signalSeries.isNone">>, <<"obstacle", "staticSeries.isNone">>,
               <<"lanelet", "stopLine.trafficSignRef.isNone">>, <<"lanelet", "stopLine.trafficLightRef.isNone">>,
               <<"planning", "goalLanelets.isNone">>}
 XmlNotCarried ==
@@ -534,6 +535,17 @@ Diffs(fmt, exp, back) ==
       first == {i \in DOMAIN cl : cl[i] # "" /\ \A j \in 1..(i - 1) : cl[j] # cl[i]}
   IN IF exp = obs THEN {} ELSE {cl[i] : i \in {i \in first : Cardinality({j \in first : j < i}) < MaxClauses}}
 
+(* ------------------------------ band: traffic lights without cycle ---------------------------------------------- *)
+(* The quantifier of C01 / C02 restricts traffic lights to a non-empty cycle.  An EMPTY cycle is still asserted for      *)
+(* protobuf (repeated cycle_elements; it round-trips).  A light built WITHOUT cycle (traffic_light_cycle = None) is      *)
+(* outside the property: a write that raises is accepted and, when it is written, nothing is demanded of its cycle      *)
+(* leaves.  (Observed: the protobuf writer raises AttributeError for TrafficLight(id, position).)                        *)
+CyclelessLights(d) == {d.lights[i].id : i \in DOMAIN d.lights} \ {d.lights[i].id : i \in {j \in DOMAIN d.lights : d.lights[j].g.cycNone = 0}}
+HasCyclelessLight(d) == CyclelessLights(d) # {}
+InBand(d, l) == /\ l[1] = "trafficLight" /\ l[3] \in {"cycle.n", "timeOffset", "cycle.color", "cycle.duration"}
+                /\ \E x \in CyclelessLights(d) : l[2] = I2S(x) \/ l[2] \in {I2S(x) \o "/c" \o I2S(n) : n \in 1..4}
+OutsideBand(d, leaves) == SelectSeq(leaves, LAMBDA l : ~InBand(d, l))
+
 (* ------------------------------ state classes ------------------------------------------------------------------ *)
 (* which attributes a read-back state must populate (the statement; class identity is not required) *)
 Populated(F, isInitial) == IF isInitial THEN F \cup Range(InitialAttrs) ELSE F
@@ -575,7 +587,7 @@ StateOK(st) == /\ \A i \in DOMAIN st.a : st.a[i].n \in Range(AttrOrder) /\ Value
 SignalOK(sg, lo) == TimeOK(sg.t, lo) /\ \A i \in DOMAIN sg.b : sg.b[i].n \in Range(SignalOrder) /\ sg.b[i].v \in {0, 1}
 LaneletIds(d) == IdsOf(d.lanelets)
 (* sanity every scenario of either quantifier satisfies: ids >= 1 and distinct, references resolve to the right kind, *)
-(* 2-D geometry with positive sizes, explicit sign / light positions, non-empty light cycle                            *)
+(* 2-D geometry with positive sizes, explicit sign / light positions (a non-empty light cycle: XmlExpressible only)    *)
 WellFormed(d) ==
   /\ LET ids == AllIdSeq(d) IN /\ \A i \in DOMAIN ids : ids[i] \in 1..MaxId
                                /\ \A i, j \in DOMAIN ids : i # j => ids[i] # ids[j]
@@ -585,8 +597,9 @@ WellFormed(d) ==
        /\ Range(la.signs) \subseteq IdsOf(d.signs) /\ Range(la.lights) \subseteq IdsOf(d.lights)
        /\ \A s \in Range(la.stop) : Range(s.sref) \subseteq IdsOf(d.signs) /\ Range(s.lref) \subseteq IdsOf(d.lights) /\ s.pts \in {0, 1}
   /\ \A i \in DOMAIN d.signs : Len(d.signs[i].els) >= 1 /\ Len(d.signs[i].pos) = 1 /\ Range(d.signs[i].first) \subseteq LaneletIds(d)
-  /\ \A i \in DOMAIN d.lights : /\ Len(d.lights[i].cyc) >= 1 /\ Len(d.lights[i].pos) = 1 /\ d.lights[i].off >= 0
+  /\ \A i \in DOMAIN d.lights : /\ Len(d.lights[i].pos) = 1 /\ d.lights[i].off >= 0
                                 /\ \A c \in Range(d.lights[i].cyc) : c.d >= 1
+                                /\ (d.lights[i].g.cycNone = 1 => d.lights[i].cyc = <<>> /\ d.lights[i].off = 0)
   /\ \A i \in DOMAIN d.inters : LET x == d.inters[i] IN
        /\ Len(x.incs) >= 1 /\ Range(x.cross) \subseteq LaneletIds(d)
        /\ \A inc \in Range(x.incs) : /\ Range(inc.lan) \cup Range(inc.r) \cup Range(inc.s) \cup Range(inc.l) \subseteq LaneletIds(d)
@@ -636,6 +649,7 @@ XmlExpressible(d) ==
                                    /\ \A u \in Range(la.uow) \cup Range(la.ubi) : InXsd(RoadUserT, EnumVehicleType, u)
   /\ \A s \in Range(d.signs) : /\ \A e \in Range(s.els) : e.id.v \in EnumTrafficSignID /\ e.id.c \in CountryClass[d.hdr.cid]
                                /\ \E la \in Range(d.lanelets) : s.id \in Range(la.signs)     \* 2020a: a sign is referenced by a lanelet
+  /\ \A t \in Range(d.lights) : Len(t.cyc) >= 1                                                   \* 674: non-empty cycle
   /\ \A x \in Range(d.inters) : \A inc \in Range(x.incs) : Len(inc.lan) >= 1                      \* 701
   /\ \A o \in Range(d.obstacles) :
        /\ o.role = "static" => /\ InXsd(ObstacleTypeT, EnumTypeStatic, o.type) /\ o.iss = <<>> /\ o.ser = <<>>   \* 731-746
@@ -711,8 +725,10 @@ Renumber(d, tok) ==
 (* TWIN (route = "twin", edit "none"): before the case is written, its near twin (every number token replaced by its   *)
 (* NearPairs partner) is written by a different writer object in the same process.                                   *)
 (* remove_sign / remove_light / remove_lanelet go through the Scenario API, which cleans the references in place.    *)
+(* retry (writer route): write#1 goes to a path whose directory does not exist and raises; the directory is created and  *)
+(* write#2 of the SAME writer goes to that path - a failed write must leave nothing behind in the writer.                *)
 EditTokens == <<"add_network", "remove_obstacle", "translate", "light_offset", "add_pp", "none", "remove_sign", "remove_light",
-                "remove_lanelet">>
+                "remove_lanelet", "retry">>
 RemoveId(ids, x) == SelectSeq(ids, LAMBDA i : i # x)
 AllRefsToLanelets(d) ==
   UNION {Range(inc.lan) \cup Range(inc.r) \cup Range(inc.s) \cup Range(inc.l) : inc \in UNION {Range(x.incs) : x \in Range(d.inters)}}
@@ -724,7 +740,7 @@ NewLanelet == [id |-> 5, nv |-> 2, geo |-> "one", lml |-> "SOLID", lmr |-> "DASH
                stop |-> <<>>, types |-> <<"URBAN">>, uow |-> <<>>, ubi |-> <<>>, signs |-> <<26>>, lights |-> <<36>>]
 NewSign(cid) == [id |-> 26, els |-> <<[id |-> EditSignId(cid), av |-> <<"30">>]>>, pos |-> <<[x |-> "one", y |-> "half"]>>, virt |-> 0, first |-> <<>>]
 NewLight == [id |-> 36, cyc |-> <<[c |-> "GREEN", d |-> 4], [c |-> "RED", d |-> 6]>>, off |-> 1, pos |-> <<[x |-> "half", y |-> "one"]>>,
-             dir |-> "ALL", act |-> 1]
+             dir |-> "ALL", act |-> 1, g |-> [cycNone |-> 0]]
 NewPP == [id |-> 95,
           init |-> [t |-> [k |-> "exact", t |-> 0], c |-> "InitialState",
                     a |-> <<[n |-> "position", v |-> [k |-> "exact", x |-> "one", y |-> "half"]], [n |-> "orientation", v |-> [k |-> "exact", x |-> "tenth"]],
@@ -748,6 +764,7 @@ Edit(d, tok) ==
     [] tok = "remove_obstacle" -> [d EXCEPT !.obstacles = Tail(@)]
     [] tok = "translate" -> d                  \* lanelet network moved by a lattice vector: same tokens, other coordinates
     [] tok = "none" -> d
+    [] tok = "retry" -> d
     [] tok = "remove_sign" -> LET x == d.signs[1].id IN
          [d EXCEPT !.signs = Tail(@),
                    !.lanelets = Map(@, LAMBDA la : [la EXCEPT !.signs = RemoveId(@, x),
@@ -766,7 +783,7 @@ EditOf(d, ru) == IF ru = <<>> THEN d ELSE Edit(d, ru[1].edit)
 WrittenBy(d, ru) == IF ru # <<>> /\ ru[1].w2 = "scenario" THEN [EditOf(d, ru) EXCEPT !.pps = <<>>] ELSE EditOf(d, ru)
 ReuseOK(d, ru) == ru = <<>> \/ (/\ EditApplicable(d, ru[1].edit) /\ ru[1].w2 \in {"full", "scenario"} /\ WellFormed(EditOf(d, ru))
                                  /\ ru[1].route \in {"writer", "reader", "twin"} /\ ru[1].first \in {"open", "open_lanelet_network"}
-                                 /\ (ru[1].route = "twin" => ru[1].edit = "none"))
+                                 /\ (ru[1].route = "twin" => ru[1].edit = "none") /\ (ru[1].edit = "retry" => ru[1].route = "writer"))
 
 (* ------------------------------ C03: the document the contract demands ------------------------------------------- *)
 (* AbstractDoc(d): element entries (Xsd2020a) of an XML document that carries every XML-carried leaf of d, children in *)
